@@ -11,15 +11,33 @@ pub struct SelV {
     a: i64,
     b: i64,
 }
+const POS_INF: i64 = 2_000_000_000; // ViewBounds!PosInf: any bound of magnitude >= 2^31
+const NEG_INF: i64 = -2_000_000_000;
 impl ViewBounds for SelV {
     fn view_bounds(self, size: usize) -> Option<(usize, usize)> {
+        let (a, b) = (self.a, self.b);
+        let big = |x: i64| x >= POS_INF;
+        let lo = |x: i64| if x <= NEG_INF { i64::MIN } else { x };
+        // extreme bounds are instantiated with the unsigned maxima (u64 on even, usize on odd axes) where the
+        // other bound allows an unsigned range, with i64::MAX / i64::MIN otherwise
+        let even = size % 2 == 0;
         match self.form.as_str() {
-            "idx" => self.a.view_bounds(size),
-            "range" => (self.a..self.b).view_bounds(size),
-            "from" => (self.a..).view_bounds(size),
-            "to" => (..self.b).view_bounds(size),
-            "incl" => (self.a..=self.b).view_bounds(size),
-            "toincl" => (..=self.b).view_bounds(size),
+            "idx" if big(a) => if even { u64::MAX.view_bounds(size) } else { usize::MAX.view_bounds(size) },
+            "idx" => lo(a).view_bounds(size),
+            "range" if big(b) && a >= 0 && !big(a) => if even { (a as u64..u64::MAX).view_bounds(size) } else { (a as usize..usize::MAX - 1).view_bounds(size) },
+            "range" if big(a) && big(b) => (u64::MAX - 1..u64::MAX).view_bounds(size),
+            "range" if big(a) && b >= 0 => (u64::MAX..b as u64).view_bounds(size),
+            "range" => ((if big(a) { i64::MAX } else { lo(a) })..(if big(b) { i64::MAX } else { lo(b) })).view_bounds(size),
+            "from" if big(a) => if even { (u64::MAX..).view_bounds(size) } else { ((1usize << 63)..).view_bounds(size) },
+            "from" => (lo(a)..).view_bounds(size),
+            "to" if big(b) => if even { (..u64::MAX).view_bounds(size) } else { (..usize::MAX).view_bounds(size) },
+            "to" => (..lo(b)).view_bounds(size),
+            "incl" if big(b) && a >= 0 && !big(a) => if even { (a as u64..=u64::MAX - 1).view_bounds(size) } else { (a as usize..=usize::MAX).view_bounds(size) },
+            "incl" if big(a) && big(b) => (u64::MAX..=u64::MAX).view_bounds(size),
+            "incl" if big(a) && b >= 0 => (u64::MAX..=b as u64).view_bounds(size),
+            "incl" => ((if big(a) { i64::MAX } else { lo(a) })..=(if big(b) { i64::MAX } else { lo(b) })).view_bounds(size),
+            "toincl" if big(b) => if even { (..=u64::MAX - 1).view_bounds(size) } else { (..=(1usize << 63)).view_bounds(size) },
+            "toincl" => (..=lo(b)).view_bounds(size),
             _ => (..).view_bounds(size),
         }
     }
